@@ -7,6 +7,7 @@
    getobj <loc> <objid> <genno> <tokens ...>
    select <isMetadata>               decision table of decrypt for the handler of the last `open`
    unpad <data>                      unpad_aes
+   spec.select <v4plus> <em> <isStream> <isMeta> <stmf> <strf>   ISO 7.6.5 decision (twin of c10_keys.table_7_6_5)
    objkey <rc4|aes128> <key> <objid> <genno>    per-object key
    spec.enc <method> <key> <objid> <genno> <iv> <data>
    spec.derive234 <R> <length> <P> <id0> <em> <paddedUser> <paddedOwner> <tail>
@@ -203,6 +204,10 @@ def step (st : St) (line : String) : St × String :=
            | some m => m.name
            | none => "none")
     | none => (st, "bad-op")
+  | ["spec.select", v4, em, isStream, isMeta, stmf, strf] =>
+    match parseMethod stmf, parseMethod strf with
+    | some a, some b => (st, (specSelect (v4 == "1") (em == "1") (isStream == "1") (isMeta == "1") a b).name)
+    | _, _ => (st, "bad-op")
   | ["unpad", d] =>
     match bytesOfHex d with
     | some d => (st, hexOrDash (unpadAes d))
